@@ -110,6 +110,28 @@ def r1_write_plan(ctx: Context, pl: Plumbing) -> None:
                   f"a crash between writing {a} and {b} is detected on load by a cross-file check",
                   f"non-atomic save: a crash after {a} was rewritten and before {b} is rewritten leaves a folder that mixes the new {a} with the previous {b}; "
                   "load_calibrator_state / restore_from_checkpoint perform no cross-file consistency check, so the hybrid is restored silently", pl.save, pl.save.node)
+    # one file written in two steps on the same path: a crash between the steps leaves a well-formed file holding the intermediate state
+    g = CFG(pl.save.node)
+    in_save = {id(y) for y in ast.walk(pl.save.node)}
+
+    def cfg_nodes(e):
+        n = e.node if id(e.node) in in_save else getattr(e, "node_in_save", None)
+        return node_for(g, n) if n is not None and id(n) in in_save else []
+
+    writes = [e for e in effects if e.api != "rename"]
+    n_pairs = 0
+    for i, a in enumerate(writes):
+        for b in writes[i + 1:]:
+            if a.file != b.file or a.file in (None, "?"):
+                continue
+            n_pairs += 1
+            na, nb = cfg_nodes(a), cfg_nodes(b)
+            seq = any(y in g.reachable_from(x) for x in na for y in nb if x is not y)
+            closed = any(a.file in c for c in cross)
+            ctx.check(not seq or closed, "R1.window", f"window:{a.file}#{a.mode}->{b.file}#{b.mode}", f"the two writes of {a.file} (mode {a.mode} / mode {b.mode}) lie on alternative paths",
+                      f"{a.file} is written in two steps on one path (opened with mode '{a.mode}', closed, then opened again with mode '{b.mode}'): a crash between the steps leaves a well-formed "
+                      f"{a.file} that holds only the first step, next to the other files of the new checkpoint; load accepts it silently", pl.save, b.node if id(b.node) in in_save else pl.save.node)
+    ctx.notes["same_file_write_pairs"] = n_pairs
     # a file that is only written under a condition widens the window set: reported by C04-R2.every-file
 
 
@@ -161,6 +183,20 @@ def r2_sqlite(ctx: Context) -> None:
                   "no destructive SQL goes through executescript (which commits immediately)",
                   f"`{m.group(1).upper() if m else ''}` is part of the script run by executescript(): it is committed at once, outside the INSERT's transaction - "
                   "a failing INSERT is rolled back but the previous checkpoint is already gone", save, c)
+    # PRAGMAs that switch off the rollback journal / durable writes: rollback() then cannot restore the previous row and a kill mid-save corrupts the file
+    prag = re.compile(r"PRAGMA\s+(?:\w+\.)?(journal_mode|synchronous|locking_mode|writable_schema|ignore_check_constraints)\s*(?:=\s*|\(\s*)['\"]?(\w+)", re.I)
+    safe = {"journal_mode": {"delete", "wal", "truncate", "persist"}, "synchronous": {"normal", "full", "extra", "1", "2", "3"}, "locking_mode": {"normal", "exclusive"},
+            "writable_schema": {"0", "off", "false", "no"}, "ignore_check_constraints": {"0", "off", "false", "no"}}
+    n_prag = 0
+    for c in scripts + execs:
+        text = re.sub(r"--[^\n]*", "", sql_of(c))
+        for m in prag.finditer(text):
+            n_prag += 1
+            name, val = m.group(1).lower(), m.group(2).lower()
+            ctx.check(val in safe[name], "R2.pragma", f"sqlite3.save:pragma:{name}={val}", f"PRAGMA {name}={val} keeps the rollback journal and durable commits",
+                      f"`PRAGMA {name} = {m.group(2)}` on the writer connection: without a rollback journal / synchronous writes a failed or killed save cannot be rolled back - "
+                      "the DELETE + partial INSERT reach the file and the previous checkpoint is lost or the database is corrupt", save, c)
+    ctx.ok("R2.pragma", "sqlite3.save:pragmas", f"{n_prag} journal / synchronous PRAGMA(s) on the writer connection, none unsafe")
     kinds = {}
     for c in execs:
         text = sql_of(c)
